@@ -691,7 +691,56 @@ def calls_in_all(f):
     return [n for n in ast.walk(f) if isinstance(n, ast.Call)]
 
 
+def q6(prog, ctx):
+    """The three parallel block lists of an alignment (reference exons, read blocks, CIGAR blocks) are what the CIGAR walker produced, minus
+    whole blocks trimmed from the ends: each is assigned only from the walker's result or from a slice of itself - nothing recomputes or
+    shifts the coordinates of a block afterwards (H consumes no query: read blocks index SEQ as it is stored)."""
+    AI_ = "src/alignment_info.py"
+    cls = prog.cls(AI_, "AlignmentInfo")
+    lists = ("read_exons", "read_blocks", "cigar_blocks")
+    n = 0
+    for name, f in sorted(prog.methods_of(cls, inherited=False).items()):
+        for st in walk_no_nested(f):
+            if not isinstance(st, (ast.Assign, ast.AugAssign)):
+                continue
+            tgs = st.targets if isinstance(st, ast.Assign) else [st.target]
+            flat = [e for t in tgs for e in (t.elts if isinstance(t, ast.Tuple) else [t])]
+            hit = [e for e in flat if isinstance(e, ast.Attribute) and e.attr in lists and src(e.value) == "self"]
+            sub = [e for e in flat if isinstance(e, ast.Subscript) and isinstance(e.value, ast.Attribute) and e.value.attr in lists
+                   and src(e.value.value) == "self"]
+            for e in sub:
+                n += 1
+                ctx.fail("Q6", st, "AlignmentInfo." + name, src(st)[:80], "an element of self.%s is overwritten: the block no longer is what the "
+                         "CIGAR walk produced" % e.value.attr)
+            for e in hit:
+                n += 1
+                v = st.value
+                if isinstance(st, ast.Assign) and isinstance(v, ast.Call) and (call_name(v) or "").split(".")[-1] == "get_read_blocks":
+                    ctx.ok("Q6", "%s:%d" % (AI_, st.lineno), "self.%s <- get_read_blocks(...)" % e.attr)
+                elif isinstance(st, ast.Assign) and isinstance(v, ast.Subscript) and not isinstance(v.slice, ast.Constant) and src(v.value) == src(e):
+                    ctx.ok("Q6", "%s:%d" % (AI_, st.lineno), "self.%s trimmed by a slice of itself" % e.attr)
+                elif isinstance(st, ast.Assign) and (isinstance(v, (ast.Call, ast.Name, ast.Attribute)) or
+                                                     (isinstance(v, ast.Subscript) and not isinstance(v.slice, ast.Constant))):
+                    ctx.undecided("Q6", st, "AlignmentInfo." + name, "self.%s is assigned from %s, which is neither the walker call nor a slice "
+                                  "of itself" % (e.attr, src(v)[:50]))
+                else:
+                    ctx.fail("Q6", st, "AlignmentInfo." + name, src(st)[:80], "self.%s is recomputed (%s) after the CIGAR walk: its blocks are no "
+                             "longer the walker's blocks in the coordinates of the stored SEQ / reference - for read blocks a shift by a hard "
+                             "clip, which consumes no query, points past the stored sequence" % (e.attr, src(v)[:50]))
+    for name, f in sorted(prog.methods_of(cls, inherited=False).items()):
+        for c in walk_no_nested(f):
+            if isinstance(c, ast.Call) and isinstance(c.func, ast.Attribute) and isinstance(c.func.value, ast.Attribute) \
+                    and c.func.value.attr in lists and src(c.func.value.value) == "self" \
+                    and c.func.attr in ("append", "insert", "extend", "pop", "remove", "sort", "reverse", "clear"):
+                n += 1
+                ctx.fail("Q6", c, "AlignmentInfo." + name, src(c)[:80], "self.%s is changed in place by .%s()" % (c.func.value.attr, c.func.attr))
+    ctx.floor("Q6", "assignments of the parallel block lists", n, 4)
+
+
 def run(prog, ctx):
+    ctx.rule("Q6", "AlignmentInfo.read_exons / read_blocks / cigar_blocks are assigned only from get_read_blocks(...) or from a slice of "
+                   "themselves, and never changed in place")
+    q6(prog, ctx)
     ctx.rule("Q1", "abstract evaluation of the CIGAR walkers' branch structure for each CigarEvent member and block state: the "
                    "(query, reference) cursor increments equal the SAM consumption table, by the op length; only N and S close a "
                    "block, M/=/X/I/D open one; a block is recorded into the three parallel lists together and only under has_match")
